@@ -74,6 +74,9 @@ func main() {
 			agg.Require("dkg_vote_ties", 1)
 			agg.Require("validator_updates_nonempty", 1)
 			agg.Require("bfs_states", 10)
+			agg.Require("marathon_histories", 5)
+			agg.Require("large_threshold_histories", 5)
+			agg.Require("commitments_with_16_or_more_gammas", 5)
 		},
 		CaseTimeout: 20 * time.Minute,
 	}
@@ -102,8 +105,37 @@ func walkSetup(env *vlib.Env, h int) (*smchain.Universe, smchain.Genesis, *smcha
 		g.Keypers = r.Perm(len(u.Keys))[:4+r.Intn(3)]
 		g.Threshold = uint64(1 + r.Intn(len(g.Keypers)/2))
 	}
+	if h%16 == 5 {
+		// a large keyper set with a threshold of 17..20: commitments with many gammas
+		u = smchain.NewUniverse(env.Seed+uint64(h%7), 24, 8)
+		g = smchain.RandomGenesis(u, r)
+		g.Keypers = r.Perm(24)
+		g.Threshold = uint64(17 + r.Intn(4))
+		opts.Targeted = ""
+	}
 	gen := smchain.NewGen(u, g, r.Split(), opts)
+	if h%16 == 5 {
+		gen.ExtendGammas(24)
+	}
 	return u, g, gen, env.Scale(60, 250)
+}
+
+// marathonBlock: one keyper sends fifty block-seen reports per block for thirty blocks (1500
+// accepted transactions of one sender), then earlier ones are replayed.
+func marathonBlock(u *smchain.Universe, g smchain.Genesis, gen *smchain.Gen, r *vlib.Rng, b int, sent *[]smchain.Tx) []smchain.Tx {
+	var txs []smchain.Tx
+	if b < 30 {
+		for i := 0; i < 50; i++ {
+			tx := u.SignTx(g.Keypers[0], gen.NextNonce(), smchain.ChainID, shmsg.NewBlockSeen(uint64(b*50+i)), "marathon-seen")
+			txs = append(txs, tx)
+			*sent = append(*sent, tx)
+		}
+		return txs
+	}
+	for i := 0; i < 20 && len(*sent) > 0; i++ {
+		txs = append(txs, (*sent)[r.Intn(len(*sent))])
+	}
+	return txs
 }
 
 func runWalk(env *vlib.Env, h int, rep *vlib.Reporter, nrep int, primary bool) {
@@ -127,8 +159,39 @@ func runWalk(env *vlib.Env, h int, rep *vlib.Reporter, nrep int, primary bool) {
 	mempoolNonce := uint64(0)
 	okTx, events := 0, 0
 	var labels []string
+	marathon := h%16 == 13
+	var marathonSent []smchain.Tx
+	mr := vlib.NewRng(env.Seed, 913, uint64(h))
+	if marathon {
+		rep.Obs("marathon_histories", 1)
+	}
+	if h%16 == 5 {
+		rep.Obs("large_threshold_histories", 1)
+	}
 	for b := 0; b < nblocks; b++ {
-		txs := gen.NextBlock()
+		var txs []smchain.Tx
+		if h%16 == 5 && b == 0 {
+			// every genesis keyper votes for the same next configuration (all 24 keypers, threshold
+			// 17..20): the key generation that follows needs commitments with 17..20 gammas
+			last := gen.Shadow.App.LastConfig()
+			var all [][]byte
+			for _, a := range u.Addrs[:24] {
+				all = append(all, a.Bytes())
+			}
+			_ = all
+			for _, k := range g.Keypers {
+				txs = append(txs, u.SignTx(k, gen.NextNonce(), smchain.ChainID, shmsg.NewBatchConfig(last.ActivationBlockNumber, u.Addrs[:24], g.Threshold, last.KeyperConfigIndex+1), "scripted-vote"))
+			}
+			txs = gen.Scripted(txs)
+		} else {
+			txs = gen.NextBlock()
+		}
+		if marathon {
+			if b >= 36 {
+				break
+			}
+			txs = marathonBlock(u, g, gen, mr, b, &marathonSent)
+		}
 		// mempool traffic is outside the block sequence: replicas 0 and 1 see the block's
 		// transactions in CheckTx (responses compared), replica 2 sees no CheckTx at all, replica 3
 		// sees them in another order plus transactions that never make it into a block
@@ -172,7 +235,12 @@ func runWalk(env *vlib.Env, h int, rep *vlib.Reporter, nrep int, primary bool) {
 			if i == 0 {
 				ref, refState = br, st
 				hash.Write([]byte(br.Digest()))
-				for _, d := range br.DeliverRs {
+				for j, d := range br.DeliverRs {
+					if d.Code == 0 && j < len(txs) && txs[j].Msg != nil {
+						if pc := txs[j].Msg.GetPolyCommitment(); pc != nil && len(pc.Gammas) >= 16 {
+							rep.Obs("commitments_with_16_or_more_gammas", 1)
+						}
+					}
 					if d.Code == 0 {
 						okTx++
 					}
